@@ -159,20 +159,27 @@ def request (c : DevConfig) (s : DevState) (r : Req) : DevState × Resp :=
 def stageAfterSetup (su : Setup) : Stage :=
   if su.length ≠ 0 then (if su.isIn then .dataIn else .dataOut) else .statusIn
 
-/-- A token for our address: token detector, setup decoder, control-endpoint stage FSM, then the response
-once `ready_for_response` fires. -/
+/-- The control-endpoint stage after a token for our address (`_handle_setup_reset` and the
+DATA -> STATUS transitions; evaluated when `new_token` is strobed). -/
+def tokenStage (s : DevState) (pid ep : Nat) : Stage :=
+  if pid = PID_SETUP then .setup
+  else if ep = 0 then
+    match s.stage with
+    | .dataIn => if pid = PID_OUT ∨ pid = PID_PING then .statusOut else .dataIn
+    | .dataOut => if pid = PID_IN then .statusIn else .dataOut
+    | st => st
+  else s.stage
+
+/-- Registers after a token for our address: token detector outputs, setup decoder (SETUP -> READ_DATA,
+any other token -> IDLE), stage FSM. -/
+def afterToken (s : DevState) (pid ep : Nat) : DevState :=
+  { s with tokPid := pid, tokEp := ep, sdWait := decide (pid = PID_SETUP), stage := tokenStage s pid ep }
+
+/-- A token for our address, then the response once `ready_for_response` fires. -/
 def onToken (c : DevConfig) (s : DevState) (pid ep : Nat) : DevState × Resp :=
-  let stage' : Stage :=
-    if pid = PID_SETUP then .setup
-    else if ep = 0 then
-      match s.stage with
-      | .dataIn => if pid = PID_OUT ∨ pid = PID_PING then .statusOut else .dataIn
-      | .dataOut => if pid = PID_IN then .statusIn else .dataOut
-      | st => st
-    else s.stage
-  let s1 := { s with tokPid := pid, tokEp := ep, sdWait := decide (pid = PID_SETUP), stage := stage' }
+  let s1 := afterToken s pid ep
   if ep = 0 then
-    match stage' with
+    match s1.stage with
     | .dataIn => if pid = PID_IN then request c s1 .data else (s1, .none)
     | .dataOut => if pid = PID_PING then (s1, .hs PID_ACK) else (s1, .none)
     | .statusIn => if pid = PID_IN then request c s1 .status else (s1, .none)
